@@ -40,8 +40,8 @@ inductive Sig (α : Type) where
 
 variable {α : Type}
 
-def alloc (st : St α) (tm : TM α) : St α × Nat :=
-  ({ st with heap := st.heap.push tm }, st.heap.size)
+/-- allocate a new `TraverserMatch`; its address is the old `heap.size` -/
+def push (st : St α) (tm : TM α) : St α := { st with heap := st.heap.push tm }
 
 /-- `remember_on_catch(match, state)` -/
 def remember (st : St α) (p : Nat) (its : List (Name × α)) : St α :=
@@ -50,7 +50,7 @@ def remember (st : St α) (p : Nat) (its : List (Name × α)) : St α :=
 
 /-- `restore_on_catch(match)` (after the `fix:` commit: the root installs `done_action`). -/
 def restore (st : St α) (p : Nat) : St α :=
-  if st.rootPtr == some p then
+  if st.rootPtr = some p then
     { st with heap := st.heap.modify p fun tm => { tm with catchState := none, ocm := none, oca := .done } }
   else
     match st.heap[p]? with
@@ -70,82 +70,77 @@ inductive MR (α : Type) where
   | ok (st : St α) (nm : Option Nat) (evs : List (Ev α))
   | abort (st : St α) (sig : Sig α) (evs : List (Ev α))
 
+/-- a new match derived from the match in cell `p` (whose current record is `tm`): it
+copies `tm`'s resume pointer -/
+def derive (tm : TM α) (p : Nat) (node : MNode α) (vertex vidx : Nat) : TM α :=
+  { node := node, realParent := some p, vertex := vertex, vidx := vidx, ocm := tm.ocm, oca := tm.oca }
+
 section
 variable (view : α → View α)
 
 /-- the common tail of every multi-valued `match`: `next(iterator)` → new match, or
-`StopIteration` → `restore_on_catch`. -/
-def iterStep (st : St α) (p : Nat) (vi : Nat) (its : List (Name × α)) : MR α :=
+`StopIteration` → `restore_on_catch`.  `tm` is the record of cell `p` *after* a possible
+`remember_on_catch`. -/
+def iterStep (st : St α) (p : Nat) (tm : TM α) (vi : Nat) (its : List (Name × α)) : MR α :=
   match its with
   | (nm, x) :: tl =>
-    let st := setIts st p tl
-    match st.heap[p]? with
-    | some tm =>
-      let (st', q) := alloc st { node := .child tm.node nm x, realParent := some p, vertex := vi,
-                                 vidx := vi, ocm := tm.ocm, oca := tm.oca }
-      .ok st' (some q) []
-    | none => .abort st (.bug "dangling") []
+    .ok (push (setIts st p tl) (derive tm p (.child tm.node nm x) vi vi)) (some st.heap.size) []
   | [] => .ok (restore st p) none []
 
-/-- `next_vertex.match(current_match, traverser, vertex_index)` -/
-def vmatch (st : St α) (p : Nat) (vi : Nat) (s : Step α) : MR α :=
-  match st.heap[p]? with
-  | none => .abort st (.bug "dangling") []
-  | some tm =>
-  match s.cls with
-  | .single =>
-    match singleOf view s tm.node with
+def vmatchSingle (st : St α) (p : Nat) (tm : TM α) (vi : Nat) (s : Step α) : MR α :=
+  match singleOf view s tm.node with
+  | none => .ok st none []
+  | some n' => .ok (push st (derive tm p n' vi vi)) (some st.heap.size) []
+
+def vmatchFilter (st : St α) (p : Nat) (tm : TM α) (vi : Nat) (f : Pred α) : MR α :=
+  match (f tm.node).res with
+  | .val j =>
+    if j.truthy then
+      .ok (push st (derive tm p (.imag tm.node) vi vi)) (some st.heap.size) (.predCall tm.node :: (f tm.node).evs)
+    else .ok st none (.predCall tm.node :: (f tm.node).evs)
+  | .raise e =>
+    .abort st (.raised (.traversing e)) (.predCall tm.node :: (f tm.node).evs ++ [.raised (.traversing e)])
+
+def parked (tm : TM α) (p : Nat) (its : List (Name × α)) : TM α :=
+  { tm with catchState := some its, ocm := some p, oca := .match_ }
+
+def vmatchMulti (st : St α) (p : Nat) (tm : TM α) (vi : Nat) (s : Step α) : MR α :=
+  match tm.catchState with
+  | some its => iterStep st p tm vi its
+  | none =>
+    match itemsOf s (view tm.node.data) with
+    | .wrongKind => .ok st none []
+    | .valueError => .abort st (.raised (.user "ValueError")) [.raised (.user "ValueError")]
+    | .ok its => iterStep (remember st p its) p (parked tm p its) vi its
+
+def vmatchRecur (st : St α) (p : Nat) (tm : TM α) (vi : Nat) : MR α :=
+  match tm.catchState with
+  | none =>
+    match allItems (view tm.node.data) with
     | none => .ok st none []
-    | some n' =>
-      let (st', q) := alloc st { node := n', realParent := some p, vertex := vi, vidx := vi,
-                                 ocm := tm.ocm, oca := tm.oca }
-      .ok st' (some q) []
-  | .filter =>
-    match s with
-    | .filter f =>
-      let out := f tm.node
-      match out.res with
-      | .val j =>
-        if j.truthy then
-          let (st', q) := alloc st { node := .imag tm.node, realParent := some p, vertex := vi,
-                                     vidx := vi, ocm := tm.ocm, oca := tm.oca }
-          .ok st' (some q) (.predCall tm.node :: out.evs)
-        else .ok st none (.predCall tm.node :: out.evs)
-      | .raise e =>
-        .abort st (.raised (.traversing e)) (.predCall tm.node :: out.evs ++ [.raised (.traversing e)])
-    | _ => .abort st (.bug "cls") []
-  | .multi =>
-    match tm.catchState with
-    | some its => iterStep st p vi its
+    | some its =>
+      .ok (push (remember st p its) (derive (parked tm p its) p (.imag tm.node) vi vi)) (some st.heap.size) []
+  | some [] => .ok (restore st p) none []
+  | some ((nm, x) :: tl) =>
+    -- the child is created with the recursive vertex but `vertex_index - 1`; then the single
+    -- self-call `self.match(match, traverser, vertex_index)` on the fresh child
+    match allItems (view x) with
     | none =>
-      match itemsOf s (view tm.node.data) with
-      | .wrongKind => .ok st none []
-      | .valueError => .abort st (.raised (.user "ValueError")) [.raised (.user "ValueError")]
-      | .ok its => iterStep (remember st p its) p vi its
-  | .recur =>
-    match tm.catchState with
-    | none =>
-      match allItems (view tm.node.data) with
-      | none => .ok st none []
-      | some its =>
-        let st := remember st p its
-        let (st', q) := alloc st { node := .imag tm.node, realParent := some p, vertex := vi,
-                                   vidx := vi, ocm := some p, oca := .match_ }
-        .ok st' (some q) []
-    | some [] => .ok (restore st p) none []
-    | some ((nm, x) :: tl) =>
-      let st := setIts st p tl
-      let m := MNode.child tm.node nm x
-      let (st, q) := alloc st { node := m, realParent := some p, vertex := vi, vidx := vi - 1,
-                                ocm := tm.ocm, oca := tm.oca }
-      -- the single self-call `self.match(match, traverser, vertex_index)` on the fresh child
-      match allItems (view x) with
-      | none => .ok st (some q) []
-      | some cits =>
-        let st := remember st q cits
-        let (st, r) := alloc st { node := .imag m, realParent := some q, vertex := vi, vidx := vi,
-                                  ocm := some q, oca := .match_ }
-        .ok st (some r) []
+      .ok (push (setIts st p tl) (derive tm p (.child tm.node nm x) vi (vi - 1))) (some st.heap.size) []
+    | some cits =>
+      let q := st.heap.size
+      let child : TM α := derive tm p (.child tm.node nm x) vi (vi - 1)
+      .ok (push (push (setIts st p tl) (parked child q cits))
+                (derive (parked child q cits) q (.imag (.child tm.node nm x)) vi vi))
+          (some (q + 1)) []
+
+/-- `next_vertex.match(current_match, traverser, vertex_index)`; `tm` = record of cell `p` -/
+def vmatch (st : St α) (p : Nat) (tm : TM α) (vi : Nat) (s : Step α) : MR α :=
+  match s with
+  | .filter f => vmatchFilter st p tm vi f
+  | .recur => vmatchRecur view st p tm vi
+  | .key _ | .idx _ | .parent => vmatchSingle view st p tm vi s
+  | _ => vmatchMulti view st p tm vi s
 
 variable (steps : Array (Step α))
 
@@ -159,58 +154,69 @@ def Src.rootNode : Src α → MNode α
   | .doc d => .root d
   | .nested m => .imag m
 
+def initAction (src : Src α) (st : St α) : St α × List (Ev α) × Sig α :=
+  ({ heap := st.heap.push { node := src.rootNode, realParent := none, vertex := 0, vidx := 0,
+                            ocm := some st.heap.size, oca := .done },
+     cur := some st.heap.size, rootPtr := some st.heap.size, act := .report }, [], .none)
+
+def reportAction (st : St α) (tm : TM α) : St α × List (Ev α) × Sig α :=
+  if tm.vertex = steps.size then ({ st with act := .catch_ }, [.result tm.node], .result tm.node)
+  else ({ st with act := .match_ }, [], .none)
+
+def catchAction (st : St α) (tm : TM α) : St α × List (Ev α) × Sig α :=
+  ({ st with cur := tm.ocm, act := tm.oca }, [], .none)
+
+/-- `match_action` with `current_match` in cell `c` (record `tm`) -/
+def matchAction (st : St α) (c : Nat) (tm : TM α) : St α × List (Ev α) × Sig α :=
+  match steps[tm.vidx]? with
+  | none => (st, [], .bug "vertex index out of range")
+  | some s =>
+    match vmatch view st c tm (tm.vidx + 1) s with
+    | .abort st' sig evs => (st', evs, sig)
+    | .ok st' (some q) evs =>
+      ({ st' with cur := some q, act := .report },
+       evs ++ [.attempt tm.node (tm.vidx + 1) ((st'.heap[q]?).map (·.node)) none], .none)
+    | .ok st' none evs =>
+      match st'.heap[c]? with
+      | some tm' => ({ st' with cur := tm'.ocm, act := tm'.oca }, evs ++ [.attempt tm.node (tm.vidx + 1) none none], .none)
+      | none => (st', [], .bug "dangling")
+
+/-- the record of `current_match` -/
+def curTM (st : St α) : Option (Nat × TM α) :=
+  match st.cur with
+  | none => none
+  | some c => (st.heap[c]?).map fun tm => (c, tm)
+
 /-- one `_invoke_next_action()` -/
 def action (src : Src α) (st : St α) : St α × List (Ev α) × Sig α :=
   match st.act with
-  | .init =>
-    let (st', r) := alloc st { node := src.rootNode, realParent := none, vertex := 0, vidx := 0,
-                               ocm := some st.heap.size, oca := .done }
-    ({ st' with cur := some r, rootPtr := some r, act := .report }, [], .none)
-  | .report =>
-    match st.cur.bind (st.heap[·]?) with
-    | some tm =>
-      if tm.vertex == steps.size then ({ st with act := .catch_ }, [.result tm.node], .result tm.node)
-      else ({ st with act := .match_ }, [], .none)
-    | none => (st, [], .bug "report: no current")
-  | .match_ =>
-    match st.cur, st.cur.bind (st.heap[·]?) with
-    | some c, some tm =>
-      let nvi := tm.vidx + 1
-      match steps[nvi - 1]? with
-      | none => (st, [], .bug "vertex index out of range")
-      | some s =>
-        match vmatch view st c nvi s with
-        | .abort st' sig evs => (st', evs, sig)
-        | .ok st' (some q) evs =>
-          let nn := (st'.heap[q]?).map (·.node)
-          ({ st' with cur := some q, act := .report }, evs ++ [.attempt tm.node nvi nn none], .none)
-        | .ok st' none evs =>
-          match st'.heap[c]? with
-          | some tm' => ({ st' with cur := tm'.ocm, act := tm'.oca }, evs ++ [.attempt tm.node nvi none none], .none)
-          | none => (st', [], .bug "dangling")
-    | _, _ => (st, [], .bug "match: no current")
-  | .catch_ =>
-    match st.cur.bind (st.heap[·]?) with
-    | some tm => ({ st with cur := tm.ocm, act := tm.oca }, [], .none)
-    | none => (st, [], .bug "catch: no current")
+  | .init => initAction src st
   | .done => (st, [.stop], .stop)
+  | .report => match curTM st with
+    | some (_, tm) => reportAction steps st tm
+    | none => (st, [], .bug "no current match")
+  | .catch_ => match curTM st with
+    | some (_, tm) => catchAction st tm
+    | none => (st, [], .bug "no current match")
+  | .match_ => match curTM st with
+    | some (c, tm) => matchAction view steps st c tm
+    | none => (st, [], .bug "no current match")
 
 /-- `__next__`: at most `limit` actions; when the counter reaches zero
 `InfiniteLoopDetected` is raised even if that very action produced a result. -/
 def next (src : Src α) : (limit : Nat) → St α → St α × List (Ev α) × Sig α
   | 0, st => (st, [.raised .loopDetected], .raised .loopDetected)
   | limit+1, st =>
-    let (st', evs, sig) := action view steps src st
-    match sig with
-    | .none =>
+    match action view steps src st with
+    | (st', evs, .none) =>
       if limit = 0 then (st', evs ++ [.raised .loopDetected], .raised .loopDetected)
       else
-        let (st'', evs', sig') := next src limit st'
-        (st'', evs ++ evs', sig')
-    | .result n =>
+        match next src limit st' with
+        | (st'', evs', sig') => (st'', evs ++ evs', sig')
+    | (st', evs, .result n) =>
       if limit = 0 then (st', evs ++ [.raised .loopDetected], .raised .loopDetected)
       else (st', evs, .result n)
-    | _ => (st', evs, sig)
+    | r => r
 
 end
 end Treepath
